@@ -46,6 +46,8 @@ pub struct DestState {
     /// the failing write accepts nothing and says so (Ok(0), what a full fixed-size buffer does) instead of
     /// returning an error: write_all turns that into ErrorKind::WriteZero
     pub zero_mode: bool,
+    /// every flush fails (writes and seeks work): what a destination does whose buffer cannot be emptied
+    pub fail_flushes: bool,
 }
 
 pub fn injected() -> io::Error {
@@ -96,6 +98,9 @@ impl LogDest {
     pub fn set_interrupted(&self, on: bool) {
         self.0.borrow_mut().interrupted = on;
     }
+    pub fn set_fail_flushes(&self, on: bool) {
+        self.0.borrow_mut().fail_flushes = on;
+    }
     pub fn set_zero_mode(&self, on: bool) {
         self.0.borrow_mut().zero_mode = on;
     }
@@ -106,6 +111,7 @@ impl LogDest {
         let mut s = self.0.borrow_mut();
         s.fail_at = None;
         s.failing_now = false;
+        s.fail_flushes = false;
     }
     pub fn faults_fired(&self) -> usize {
         self.0.borrow().faults_fired
@@ -200,6 +206,12 @@ impl Write for LogDest {
     }
     fn flush(&mut self) -> io::Result<()> {
         let mut s = self.0.borrow_mut();
+        if s.fail_flushes {
+            s.calls += 1;
+            s.faults_fired += 1;
+            s.fault_nonwrite = true;
+            return Err(injected_kind(s.interrupted));
+        }
         if s.fault() {
             s.fault_nonwrite = true;
             return Err(injected_kind(s.interrupted));
